@@ -1,6 +1,9 @@
 //! C15: joined numerals are normalised to their decimal value.
 //!
 //! op `parse`    : `verif_parse` (the real `NumericParser`) on a string over the numeral alphabet.
+//! op `seq`      : `verif_parse_seq`: ONE `NumericParser`, `clear()` between the texts (the way `rewrite_gen` reuses its
+//!                 parser for all numeric runs of a sentence); only when the tree under test has that hook
+//!                 (`cfg(c15_seq_hook)`, set by build.rs), otherwise the cases are skipped and counted.
 //! op `pipeline` : real dictionary + `JoinNumericPlugin`; the model predicts the joined tokens from
 //!                 the un-joined path (same text tokenised by a configuration without the plugin).
 //!
@@ -14,6 +17,11 @@ use std::collections::BTreeMap;
 use sudachi::analysis::Mode;
 use sudachi::dic::dictionary::JapaneseDictionary;
 use sudachi::plugin::path_rewrite::join_numeric::verif_parse;
+#[cfg(c15_seq_hook)]
+use sudachi::plugin::path_rewrite::join_numeric::verif_parse_seq;
+
+/// does the tree under test have the hook `verif_parse_seq` (see build.rs)?
+pub const SEQ_HOOK_PRESENT: bool = cfg!(c15_seq_hook);
 
 /// Which of the repairs of the findings F1..F6 the tree under test carries, one `0`/`1` per repair.
 /// Probed on the BEHAVIOUR of the real parser (`verif_parse` on the smallest witness of each
@@ -841,6 +849,162 @@ fn parse_case(run: &mut Run, cap: &mut FailCap, idx: usize, s: &str, emit: bool,
 }
 
 // ------------------------------------------------------------------------------------------------
+// op seq: one parser, clear() between the texts
+
+/// every field `NumericParser::clear()` resets is left in a non-initial state by one text and
+/// observed by the next one
+const DIRECTED_SEQ: &[&[&str]] = &[
+    // has_unit: a unit numeral, then a zero-led plain digit string
+    &["三千", "007"],
+    &["0.5百", "00.50"],
+    &["1万", "〇九〇"],
+    &["二十五", "0010"],
+    // last_large_unit: a large unit, then a larger (or the same) large unit
+    &["1万", "2億"],
+    &["千三百二十七万", "1万"],
+    &["3兆", "2億5千万", "三兆二千億一"],
+    // has_hanging_point / error_state: hanging point or POINT rejection, then a normal text (digit-led and unit-led)
+    &["6.", "5"],
+    &["6.", "十五"],
+    &["1.2.3", "12"],
+    &["1.2.3", "千五"],
+    &["1.千", "百"],
+    &["6.", "三百二十百"],
+    // has_comma / digit_length / error_state: COMMA rejection or a completed group, then a normal text
+    &["2,4", "2,000"],
+    &["200,00,000", "1"],
+    &["1,000", "12,000"],
+    &["2,4", "億"],
+    // subtotal / tmp: overlap rejections leave terms behind
+    &["三百二十百", "二十"],
+    &["1.5千5百", "7"],
+    // tmp (with its point), subtotal and total all non-empty
+    &["千三百二十七万一四.〇五", "3"],
+    &["12", "3"],
+    &["1.5", "2,000"],
+    &["1万", "5"],
+    // is_first_digit: the next text starts with a separator
+    &["1", ".5"],
+    &["12", ",500"],
+    // three and four texts in a row
+    &["三千", "12", "007"],
+    &["1万", "6.", "千", "2億"],
+    &["1万", "1万", "1万"],
+    &["007", "三千", "007", "三千"],
+];
+
+/// one numeral text drawn like the generated parse cases (value-driven rendering, coefficient
+/// notation, mutants, random strings)
+fn gen_numeral(rng: &mut Rng) -> String {
+    match rng.below(10) {
+        0..=3 => {
+            let v = gen_value(rng);
+            render_value(rng, &v).0
+        }
+        4 => render_coefficient(rng).0,
+        5..=7 => {
+            let v = gen_value(rng);
+            let s = render_value(rng, &v).0;
+            mutate(rng, &s).0
+        }
+        _ => random_string(rng),
+    }
+}
+
+fn gen_seq(rng: &mut Rng) -> Vec<String> {
+    let k = rng.range(2, 4);
+    let mut texts: Vec<String> = (0..k).map(|_| gen_numeral(rng)).collect();
+    if rng.chance(1, 4) {
+        // the same text twice in a row
+        let p = rng.range(1, k - 1);
+        texts[p] = texts[p - 1].clone();
+    }
+    texts
+}
+
+#[cfg(not(c15_seq_hook))]
+fn seq_case(run: &mut Run, _cap: &mut FailCap, _idx: usize, _texts: &[String], _tag: &str) {
+    run.bump("seq:hook-absent");
+}
+
+#[cfg(c15_seq_hook)]
+fn seq_case(run: &mut Run, cap: &mut FailCap, idx: usize, texts: &[String], tag: &str) {
+    let refs: Vec<&str> = texts.iter().map(|s| s.as_str()).collect();
+    let r = catch(|| verif_parse_seq(&refs));
+    let payload = format!("fix={} ts={}", probe_fixes(), texts.iter().map(|t| cps(t)).collect::<Vec<_>>().join(";"));
+    let answer = match &r {
+        Err(_) => "PANIC".to_string(),
+        Ok(rs) => format!(
+            "r={}",
+            rs.iter()
+                .map(|(n, e, d, norm)| format!("{}:{}:{}:{}", n, e, if *d { 1 } else { 0 }, join(norm.chars().map(|c| c as u32), ",")))
+                .collect::<Vec<_>>()
+                .join("|")
+        ),
+    };
+    run.case(idx, "seq", &payload, &answer, true);
+    run.bump("seq:cases");
+    run.bump(&format!("seq:texts:{}", texts.len()));
+    run.bump(&format!("seq:gen:{}", tag));
+    if texts.windows(2).any(|w| w[0] == w[1]) {
+        run.bump("seq:same-text-twice");
+    }
+    let all = texts.join("|");
+    let rs = match r {
+        Err(p) => {
+            run.bump("seq:panic");
+            run.fail(idx, &format!("seq:panic:{}", all), &format!("one NumericParser with clear() between the texts {:?} panics: {}", texts, p));
+            return;
+        }
+        Ok(rs) => rs,
+    };
+    if rs.len() != texts.len() {
+        run.fail(idx, &format!("seq:arity:{}", all), &format!("verif_parse_seq returned {} results for {} texts", rs.len(), texts.len()));
+        return;
+    }
+    // ORACLE 1 (independent of the model): after clear() the reused parser behaves like a new one
+    let mut reported = false;
+    for (k, (t, got)) in texts.iter().zip(rs.iter()).enumerate() {
+        if k > 0 {
+            let prev = &rs[k - 1];
+            let pn = texts[k - 1].chars().count();
+            run.bump(if prev.0 == pn && prev.2 { "seq:after-accepted" } else if prev.0 == pn { "seq:after-done-false" } else { "seq:after-char-rejected" });
+        }
+        match catch(|| verif_parse(t)) {
+            Err(_) => {
+                run.bump("seq:fresh-panic");
+            }
+            Ok(fresh) => {
+                if &fresh != got {
+                    run.bump("oracle-fail:seq:clear");
+                    if !reported && cap.allow("seq:clear") {
+                        reported = true;
+                        run.fail(
+                            idx,
+                            &format!("seq:clear:{}", all),
+                            &format!(
+                                "text {} ({:?}) of the sequence {:?} parsed by the reused parser after clear(): (n, err, done, norm) = {:?}; a fresh parser gives {:?}",
+                                k + 1, t, texts, got, fresh
+                            ),
+                        );
+                    }
+                }
+            }
+        }
+    }
+    // ORACLE 2: every text of the sequence judged like op parse (same keys)
+    for (t, (n, _e, d, norm)) in texts.iter().zip(rs.iter()) {
+        if let Some((kind, msg)) = judge_parse(t, *n, *d, norm) {
+            run.bump(&format!("oracle-fail:{}", kind));
+            if cap.allow(&kind) {
+                let key = format!("parse:{}:{}:{}", kind, syms_of(t).map(|x| shape(&x)).unwrap_or_default(), t);
+                run.fail(idx, &key, &format!("{} [text of the sequence {:?}, one parser with clear()]", msg, texts));
+            }
+        }
+    }
+}
+
+// ------------------------------------------------------------------------------------------------
 // op pipeline
 
 const NVAR: usize = 4;
@@ -1000,6 +1164,198 @@ fn gen_text(rng: &mut Rng) -> (String, Vec<Segment>) {
     (text, segs)
 }
 
+const UNIT_NUMERALS: &[&str] = &["三千", "1万", "0.5百", "二十五", "2億5千万", "三兆二千億一", "千三百二十七万一四.〇五", "1.5千", "十"];
+const LARGE_NUMERALS: &[&str] = &["1万", "千三百二十七万", "2億5千万", "3兆", "十万", "1.5百万", "三兆二千億一"];
+const ZERO_LED: &[&str] = &["007", "0010", "〇九〇", "00.50", "000"];
+const UNIT_LED: &[&str] = &["十五", "千", "百二十", "千三百二十七", "十", "千五"];
+const BROKEN: &[&str] = &["三百二十百", "1.5千5百", "2,4", "200,00,000", "1.2.3", "1.千", "十万一万", "1万2億", "256,55.1"];
+
+fn has_unit_symbol(s: &str) -> bool {
+    s.chars().any(|c| matches!(sym_of(c), Some(Sym::Small(_)) | Some(Sym::Large(_))))
+}
+
+fn has_large_unit_symbol(s: &str) -> bool {
+    s.chars().any(|c| matches!(sym_of(c), Some(Sym::Large(_))))
+}
+
+/// a well-formed numeral that uses a unit (value-driven unit notation, coefficient notation or a fixed one)
+fn unit_numeral(rng: &mut Rng, large: bool) -> String {
+    if !rng.chance(1, 3) {
+        for _ in 0..8 {
+            let s = if rng.chance(1, 4) {
+                render_coefficient(rng).0
+            } else {
+                let v = gen_value(rng);
+                render_value(rng, &v).0
+            };
+            let ok = if large { has_large_unit_symbol(&s) } else { has_unit_symbol(&s) };
+            if ok && s.chars().count() <= 24 {
+                return s;
+            }
+        }
+    }
+    rng.pick(if large { LARGE_NUMERALS } else { UNIT_NUMERALS }).to_string()
+}
+
+/// a plain digit string with leading zeros (its normal form keeps them)
+fn zero_led(rng: &mut Rng) -> String {
+    if rng.chance(1, 3) {
+        return rng.pick(ZERO_LED).to_string();
+    }
+    let style = rng.below(3);
+    let mut ds = vec![0u8; rng.range(1, 3)];
+    for _ in 0..rng.range(0, 4) {
+        ds.push(rng.below(10) as u8);
+    }
+    let mut out = String::new();
+    push_digits(rng, &mut out, &ds, style);
+    if rng.chance(1, 3) {
+        out.push('.');
+        let fr: Vec<u8> = (0..rng.range(1, 3)).map(|_| rng.below(10) as u8).collect();
+        push_digits(rng, &mut out, &fr, style);
+    }
+    out
+}
+
+/// coefficient x a large unit that is NOT smaller than the last large unit of `prev`
+fn large_not_smaller(rng: &mut Rng, prev: &str) -> String {
+    let last = prev.chars().rev().find_map(|c| match sym_of(c) {
+        Some(Sym::Large(e)) => Some(e as usize),
+        _ => None,
+    });
+    let units: Vec<char> = LARGE_UNITS.iter().filter(|(_, e)| last.map_or(true, |l| *e >= l)).map(|(c, _)| *c).collect();
+    let u = *rng.pick(&units);
+    let style = rng.below(3);
+    let mut out = String::new();
+    match rng.below(3) {
+        0 => {
+            let g: Vec<u8> = vec![rng.range(1, 9) as u8, rng.below(10) as u8, 0, rng.below(10) as u8];
+            push_small_units(rng, &mut out, &g, style);
+        }
+        _ => {
+            let mut ds = vec![rng.range(1, 9) as u8];
+            for _ in 0..rng.range(0, 3) {
+                ds.push(rng.below(10) as u8);
+            }
+            push_digits(rng, &mut out, &ds, style);
+        }
+    }
+    out.push(u);
+    if rng.chance(1, 4) {
+        let ds = vec![rng.range(1, 9) as u8, rng.below(10) as u8];
+        push_digits(rng, &mut out, &ds, style);
+    }
+    out
+}
+
+/// a numeral that is rejected or leaves the parser in an error / hanging state
+fn malformed_numeral(rng: &mut Rng) -> String {
+    let base = |rng: &mut Rng| -> String {
+        if rng.chance(1, 2) {
+            let n = rng.range(1, 4);
+            let mut ds = vec![rng.range(1, 9) as u8];
+            for _ in 1..n {
+                ds.push(rng.below(10) as u8);
+            }
+            let mut out = String::new();
+            let style = rng.below(3);
+            push_digits(rng, &mut out, &ds, style);
+            out
+        } else {
+            unit_numeral(rng, false)
+        }
+    };
+    match rng.below(6) {
+        0 => format!("{}.", base(rng)),
+        1 => format!("{},", base(rng)),
+        2 => format!("{}.{}.{}", rng.range(1, 99), rng.below(100), rng.below(10)),
+        3..=4 => rng.pick(BROKEN).to_string(),
+        _ => {
+            let v = gen_value(rng);
+            let r = render_value(rng, &v).0;
+            mutate(rng, &r).0.chars().take(24).collect()
+        }
+    }
+}
+
+/// any numeral piece, like `gen_text` draws them
+fn any_numeral(rng: &mut Rng) -> String {
+    let base = match rng.below(10) {
+        0..=4 => {
+            let v = gen_value(rng);
+            render_value(rng, &v).0
+        }
+        5 => render_coefficient(rng).0,
+        6..=7 => {
+            let v = gen_value(rng);
+            let r = render_value(rng, &v).0;
+            mutate(rng, &r).0
+        }
+        8 => {
+            let n = rng.range(1, 6);
+            (0..n).map(|_| ALPHABET[rng.below(28)]).collect()
+        }
+        _ => random_string(rng),
+    };
+    base.chars().take(24).collect()
+}
+
+/// A sentence with 2..4 numerals separated by non-numeral context words (never a digit / separator
+/// neighbour), i.e. 2..4 numeric runs handled by ONE `NumericParser` with `clear()` in between.
+/// Mostly an earlier numeral leaves state behind that a later one would observe if `clear()` forgot it:
+/// unit numeral -> zero-led plain digits, large unit -> not smaller large unit, malformed -> normal.
+fn gen_multi_text(rng: &mut Rng) -> String {
+    let k = rng.range(2, 4);
+    let mut nums: Vec<String> = (0..k).map(|_| any_numeral(rng)).collect();
+    match rng.below(8) {
+        0..=2 => {
+            // not necessarily adjacent
+            let p = rng.below(k - 1);
+            let q = rng.range(p + 1, k - 1);
+            nums[p] = unit_numeral(rng, false);
+            nums[q] = zero_led(rng);
+        }
+        3..=4 => {
+            let p = rng.below(k - 1);
+            nums[p] = unit_numeral(rng, true);
+            nums[p + 1] = large_not_smaller(rng, &nums[p]);
+        }
+        5..=6 => {
+            let p = rng.below(k - 1);
+            nums[p] = malformed_numeral(rng);
+            nums[p + 1] = match rng.below(5) {
+                0 => rng.pick(UNIT_LED).to_string(),
+                1 => zero_led(rng),
+                2 => format!("{},{:03}", rng.range(1, 999), rng.below(1000)),
+                3 => unit_numeral(rng, false),
+                _ => format!("{}", rng.below(100000)),
+            };
+        }
+        _ => {}
+    }
+    match rng.below(8) {
+        0 => nums = nums.iter().map(|s| s.chars().map(fullwidth).collect()).collect(),
+        1 => nums = nums.iter().map(|s| s.chars().map(|c| if rng.chance(1, 3) { fullwidth(c) } else { c }).collect()).collect(),
+        _ => {}
+    }
+    let mut text = String::new();
+    if rng.chance(1, 2) {
+        text.push_str(*rng.pick(CONTEXT));
+    }
+    for (i, s) in nums.iter().enumerate() {
+        if i > 0 {
+            for _ in 0..rng.range(1, 2) {
+                text.push_str(*rng.pick(CONTEXT));
+            }
+        }
+        text.push_str(s);
+    }
+    if rng.chance(2, 3) {
+        text.push_str(*rng.pick(CONTEXT));
+    }
+    text
+}
+
 fn norm_cps(s: &str) -> String {
     join(s.chars().map(|c| c as u32), ".")
 }
@@ -1027,6 +1383,9 @@ const DIRECTED_TEXTS: &[&str] = &[
     "2,00,000,000円", ",", "652,,,", "256,5.50389", "256,550.389", "猫三匹", "７十九三.", "あ４十三三.円", "6十七七,", "1.5,000円",
     "1.千5円", "1,千円", "十万一万円", "0.1万円", "３万９", "二十日に1000人", "12個と3.5個", "１，０００．５０円", "1.5百万1.5千20年",
     "三兆2千億千三百二十七万一四.〇五", "1,000,あ", "6.あ", "千葉に百万円", "７７個", "1\u{0301}2",
+    // two or more numeric runs in one sentence: one parser, clear() at the start of every run
+    "三千円と007番", "0.5百円と00.50番", "1万円と〇九〇番", "1万円と2億円", "6.あ5円", "三百二十百と二十", "6.あ十五円", "1円と.5", "2,4個と2,000個",
+    "1万円と5円", "12個と3個", "三千円と12個と007番",
 ];
 
 fn pipeline_case(run: &mut Run, dicts: &Dicts, idx: usize, directed: Option<usize>) {
@@ -1034,6 +1393,11 @@ fn pipeline_case(run: &mut Run, dicts: &Dicts, idx: usize, directed: Option<usiz
     let mut variant = rng.below(NVAR);
     let mut en = rng.chance(3, 4);
     let mut text = gen_text(&mut rng).0;
+    if directed.is_none() && rng.chance(1, 2) {
+        // two or more numerals in one sentence (one parser, clear() between the runs)
+        text = gen_multi_text(&mut rng);
+        run.bump("pipeline:gen:multi-numeral");
+    }
     if let Some(k) = directed {
         text = DIRECTED_TEXTS[k / 4].to_string();
         en = k % 2 == 0;
@@ -1041,6 +1405,7 @@ fn pipeline_case(run: &mut Run, dicts: &Dicts, idx: usize, directed: Option<usiz
     }
     let chars: Vec<char> = text.chars().collect();
     let segs = segments_of(&chars);
+    run.bump(&format!("pipeline:numerals-in-sentence:{}", if segs.len() >= 4 { "4+".to_string() } else { segs.len().to_string() }));
     let base = tokenize(&dicts.plain[variant], &text, Mode::C);
     let base = match base {
         Ok(Ok(t)) => t,
@@ -1186,13 +1551,19 @@ pub fn run(run: &mut Run) {
 alphabet up to length 4 (thorough: length 5 judged by the oracle, every 16th also sent to the model), then value-driven well-formed \
 numerals of up to 40 digits (plain/kanji/mixed digits, separators, fractions, small and large units, coefficient notation), their \
 near-miss mutations and random longer strings; op pipeline: real dictionary (digits, units, separators tagged as numerals, shadowing \
-words, full-width forms) with JoinNumericPlugin vs the model's prediction from the un-joined path; non-trivial = at least two \
-symbols (parse) / something was joined (pipeline); distinct by input line".into();
+words, full-width forms, half of the generated sentences with 2..4 numerals separated by context words: unit numeral then zero-led \
+digits, large unit then a not smaller one, malformed then normal) with JoinNumericPlugin vs the model's prediction from the un-joined \
+path; op seq (only when the tree has the hook verif_parse_seq, see extra.seq_hook_present): 2..4 numeral texts fed to ONE NumericParser \
+with clear() between them, directed sequences for every field clear() resets and generated ones (every tenth generated case), each \
+result must equal verif_parse of that text on a fresh parser and is judged like op parse; non-trivial = at least two \
+symbols (parse) / something was joined (pipeline) / always (seq); distinct by input line".into();
     run.extra.insert("variant_fixes_F1_F6".into(), serde_json::json!(probe_fixes()));
+    run.extra.insert("seq_hook_present".into(), serde_json::json!(SEQ_HOOK_PRESENT));
     let n = run.opts.count;
     let thorough = run.opts.thorough;
     let d1 = DIRECTED.len();
-    let d = d1 + DIRECTED_TEXTS.len() * 4;
+    let d2 = d1 + DIRECTED_TEXTS.len() * 4;
+    let d = d2 + DIRECTED_SEQ.len();
     let exh = if thorough { E4 + E5 } else { E4 };
     let mut cap = FailCap { per_kind: BTreeMap::new() };
     // self-check of the two oracle computations: generated canon vs the reference reading
@@ -1205,7 +1576,7 @@ symbols (parse) / something was joined (pipeline); distinct by input line".into(
         }
         if idx < d1 {
             parse_case(run, &mut cap, idx, DIRECTED[idx], true, "directed");
-        } else if idx < d {
+        } else if idx < d2 {
             if dicts.is_none() {
                 match Dicts::new() {
                     Ok(x) => dicts = Some(x),
@@ -1216,6 +1587,9 @@ symbols (parse) / something was joined (pipeline); distinct by input line".into(
                 }
             }
             pipeline_case(run, dicts.as_ref().unwrap(), idx, Some(idx - d1));
+        } else if idx < d {
+            let texts: Vec<String> = DIRECTED_SEQ[idx - d2].iter().map(|t| t.to_string()).collect();
+            seq_case(run, &mut cap, idx, &texts, "directed");
         } else if idx < d + exh {
             let k = idx - d;
             let s = kth_string(k);
@@ -1235,6 +1609,9 @@ symbols (parse) / something was joined (pipeline); distinct by input line".into(
                     }
                 }
                 pipeline_case(run, dicts.as_ref().unwrap(), idx, None);
+            } else if r % 10 == 8 {
+                let texts = gen_seq(&mut rng);
+                seq_case(run, &mut cap, idx, &texts, "generated");
             } else {
                 match rng.below(10) {
                     0..=3 => {
